@@ -23,7 +23,8 @@ META = {
              "Non-trivial: max or min within 1 of +-2^7,2^8,+-2^15,2^16,+-2^31,2^32,+-2^63,2^64; distinct by (max,min,form)"),
     "require": {"quick": ["pairs_partition", "consequence:indx_words_checked",
                           "consequence:collapsed_output_checked", "consequence:to_array_after_in_place_code_change",
-                          "consequence:collapsed_over_255..257_columns"],
+                          "consequence:collapsed_over_255..257_columns", "consequence:dense_output_dtype_checked:columns>256",
+                          "consequence:mapped_dense_output_dtype_checked:common_not_in_mapping"],
                 "thorough": ["pairs_partition", "pairs_random", "consequence:indx_words_checked",
                              "consequence:collapsed_output_checked"]},
     "exhaustive": {"quick": "threshold partition P x P' of the (max,min) plane (all powers of two +-1, k=0..64)",
@@ -35,12 +36,12 @@ META = {
 
 
 def shards(tier):
-    out = [{"label": "partition", "kind": "partition"}, {"label": "insitu", "kind": "insitu", "n": 400}]
+    out = [{"label": "partition", "kind": "partition"}, {"label": "insitu", "kind": "insitu", "n": 400, "crash_is_violation": True}]
     if tier == "quick":
         out += [{"label": "repotests", "kind": "repotests"}]
     if tier == "thorough":
         out += [{"label": "random%d" % i, "kind": "random", "n": 250000} for i in range(4)]
-        out += [{"label": "insitu%d" % i, "kind": "insitu", "n": 4000} for i in range(2)]
+        out += [{"label": "insitu%d" % i, "kind": "insitu", "n": 4000, "crash_is_violation": True} for i in range(2)]
         out += [{"label": "repotests", "kind": "repotests", "timeout_s": 3600}]
     return out
 
@@ -198,7 +199,11 @@ def insitu(ctx, n):
             a2 = a.reshape(rows, 2)
             idx = dense_to_index(a2, int(a2[0, 0]))
             try:
+                # (a dtype too narrow for what is stored in it can also crash the interpreter in the code that
+                # indexes with the wrapped values: the workload array in flight is then the witness)
+                ctx.inflight({"a": a2, "values": vals})
                 insitu_one(ctx, rng, i, k, idx, a2, vals, signed, io_)
+                ctx.inflight(None)
             except OverflowError as e:
                 # a value that does not fit the dtype the library chose for it
                 ctx.violation("insitu:overflow", "the dtype chosen by the library cannot hold a value it must store: %s" % e,
@@ -208,6 +213,7 @@ def insitu(ctx, n):
                 ctx.count("insitu_workload_raised(not judged here)")
             if ctx.full():
                 break
+        ctx.inflight(None)
         ctx.sample({"insitu_values": vals, "signed": bool(signed)})
     finally:
         patch.undo()
@@ -217,9 +223,14 @@ def insitu(ctx, n):
 def collapse_many_columns(ctx, rng):
     """collapsed() over exactly 255 / 256 / 257 (rarely 65536) columns: its per-row counter must hold
     the number of columns."""
+    ncols = int(rng.choice([255, 256, 257, 256, 65536] if rng.random() < 0.1 else [255, 256, 257, 256]))
+    prec = [1, 0, 2] if rng.random() < 0.5 else [1, 0, 3, 2]
+    collapse_many_columns_case(ctx, ncols, prec)
+
+
+def collapse_many_columns_case(ctx, ncols, prec):
     from ..gen import dense_to_index
 
-    ncols = int(rng.choice([255, 256, 257, 256, 65536] if rng.random() < 0.1 else [255, 256, 257, 256]))
     nrows = 4
     m = numpy.zeros((nrows, ncols), dtype=numpy.int64)
     m[0, :] = 2                        # every column holds a non-common value ranking below the common one
@@ -228,8 +239,7 @@ def collapse_many_columns(ctx, rng):
     m[3, :] = 1
     m[3, 0] = 2
     idx = dense_to_index(m, 0)
-    prec = [1, 0, 2] if rng.random() < 0.5 else [1, 0, 3, 2]
-    got = idx.collapsed(prec).to_array(dtype=numpy.int64).tolist()
+    got = idx.collapsed(list(prec)).to_array(dtype=numpy.int64).tolist()
     want = []
     for r in range(nrows):
         rowvals = set(m[r].tolist())
@@ -237,12 +247,78 @@ def collapse_many_columns(ctx, rng):
     ctx.count("consequence:collapsed_over_%s_columns" % ("65536" if ncols == 65536 else "255..257"))
     if got != want:
         ctx.violation("insitu:collapsed-counter-wrapped:ncols=%d" % ncols,
-                      "collapsed(%r) over %d columns gives %r, expected %r" % (prec, ncols, got, want), {"ncols": ncols, "precedence": prec})
+                      "collapsed(%r) over %d columns gives %r, expected %r" % (prec, ncols, got, want),
+                      {"kind": "collapse_many_columns", "ncols": ncols, "precedence": list(prec)})
+
+
+def dense_output_dtype(ctx, rng):
+    """The dtype of the dense output is chosen from the values that must be stored - the stored codes and the
+    common value (mapped, when a mapping is given; 0 fills a common value the mapping does not list) - and from
+    nothing else: not from column numbers, row counts or codes that are never written."""
+    codes_cls = [[0, 1, 2], [0, 1, 255], [-1, 0, 1], [0, 3, 256], [0, 200, 65535], [-128, 0, 127], [0, 1, 2 ** 32 - 1]]
+    codes = [int(v) for v in codes_cls[int(rng.integers(0, len(codes_cls)))]]
+    ncols = int(rng.choice([1, 2, 129, 256, 257, 300, 40000, 65537]))
+    nrows = int(rng.choice([2, 3, 300])) if ncols <= 300 else 2
+    # a sparse (nrows, ncols) index built directly: codes in a few cells of the first, a middle and the LAST column
+    common = codes[int(rng.integers(0, len(codes)))]
+    entries = {}
+    cols = sorted({0, ncols // 2, ncols - 1})
+    for j, col in enumerate(cols):
+        code = [c for c in codes if c != common][j % (len(codes) - 1)]
+        entries[(code, col)] = sorted(set(int(r) for r in rng.integers(0, nrows, size=2)))
+    # with a mapping: keys are exactly the stored codes, the common value listed or not (then 0 fills)
+    targets_cls = [[10, 20, 30, 40], [1, 2, 3, 255], [0, 5, 256, 7], [-1, 4, 5, 6], [100, 200, 300, 70000]]
+    targets = [int(v) for v in targets_cls[int(rng.integers(0, len(targets_cls)))]]
+    list_common = bool(rng.random() < 0.5)
+    keys = sorted(set(k[0] for k in entries)) + ([common] if list_common else [])
+    mp = {k: targets[j % len(targets)] for j, k in enumerate(keys)}
+    # the common code itself lies far outside the mapped values in most of the cases
+    far = int(rng.choice([-1, 1000, 70000, -200]))
+    common2 = far if (not list_common and far not in mp and rng.random() < 0.7) else common
+    dense_output_dtype_case(ctx, {"kind": "dense_output_dtype", "entries": [[list(k), v] for k, v in entries.items()],
+                                  "common": common, "shape": [nrows, ncols], "mapping": [[k, v] for k, v in mp.items()],
+                                  "common2": common2})
+
+
+def dense_output_dtype_case(ctx, case):
+    from catii import iindex
+
+    entries = {tuple(int(c) for c in k): numpy.array(v, dtype=numpy.uint32) for k, v in case["entries"]}
+    common, shape = int(case["common"]), tuple(int(x) for x in case["shape"])
+    nrows, ncols = shape
+    idx = iindex(dict(entries), common, shape)
+    stored = [k[0] for k in entries] + [common]
+    out = idx.to_array()
+    exp = expected(min(stored), max(stored))
+    ctx.count("consequence:dense_output_dtype_checked")
+    ctx.count("consequence:dense_output_dtype_checked:columns>%d" % (65536 if ncols > 65536 else (256 if ncols > 256 else (128 if ncols > 128 else 0))))
+    if exp is not None and out.dtype != exp:
+        ctx.violation("insitu:to_array-dtype:%s" % ("too-wide" if out.dtype.itemsize > exp.itemsize else "wrong"),
+                      "to_array() of a %dx%d index with codes %r and common %r chose %s; the narrowest dtype holding the stored "
+                      "values is %s" % (nrows, ncols, sorted(set(stored)), common, out.dtype, exp), case)
+        return
+    mp = {int(k): int(v) for k, v in case["mapping"]}
+    common2 = int(case["common2"])
+    if common2 in mp and common2 != common:
+        return
+    idx2 = iindex(dict(entries), common2, shape)
+    out2 = idx2.to_array(mapping=dict(mp))
+    fill = mp.get(idx2.common, 0)
+    must = [mp[k[0]] for k in entries] + [fill]
+    exp2 = expected(min(must), max(must))
+    ctx.count("consequence:mapped_dense_output_dtype_checked" + ("" if idx2.common in mp else ":common_not_in_mapping"))
+    if exp2 is not None and out2.dtype != exp2:
+        ctx.violation("insitu:to_array(mapping)-dtype:%s" % ("too-wide" if out2.dtype.itemsize > exp2.itemsize else "wrong"),
+                      "to_array(mapping=%r) of an index with codes %r and common %r chose %s; the values written are %r, "
+                      "the narrowest dtype holding them is %s" % (mp, sorted(set(k[0] for k in entries)), idx2.common, out2.dtype,
+                                                                 sorted(set(must)), exp2), case)
 
 
 def insitu_one(ctx, rng, i, k, idx, a2, vals, signed, io_):
     if i % 10 == 3:
         collapse_many_columns(ctx, rng)
+    if i % 3 == 1:
+        dense_output_dtype(ctx, rng)
     if True:
         if True:
             out = idx.to_array()                       # default dtype -> fit_dtype
@@ -293,19 +369,71 @@ def insitu_one(ctx, rng, i, k, idx, a2, vals, signed, io_):
             if not signed:
                 # the widest coordinate deliberately sits in the FIRST key and in either position
                 order = sorted(range(len(vals)), key=lambda j: -vals[j])
-                ent = {}
-                for pos, j in enumerate(order):
-                    key = (int(vals[j]), int(pos)) if i % 2 == 0 else (int(pos), int(vals[j]))
-                    ent[key] = numpy.array([pos], dtype=numpy.uint32)
-                common = int(vals[int(rng.integers(0, k))])
-                with tempfile.TemporaryFile() as f:
-                    io_.IndxIO.save(f, ent, common, numpy.dtype(numpy.uint32))
-                    f.seek(0)
-                    loaded, lcommon, _ = io_.IndxIO.load(f)
-                    lkeys = set(loaded)
-                    del loaded
-                ctx.count("consequence:indx_words_checked")
-                if lkeys != set(ent) or lcommon != common:
-                    ctx.violation("insitu:indx-coordinate-wrapped",
-                                  "INDX coordinate word too narrow: saved keys %r common %r, loaded keys %r common %r"
-                                  % (sorted(ent)[:4], common, sorted(lkeys)[:4], lcommon), {"entries": sorted(ent), "common": common})
+                keys = [(int(vals[j]), int(pos)) if i % 2 == 0 else (int(pos), int(vals[j])) for pos, j in enumerate(order)]
+                indx_words_case(ctx, io_, keys, int(vals[int(rng.integers(0, k))]))
+
+
+def indx_words_case(ctx, io_, keys, common):
+    ent = {tuple(int(c) for c in key): numpy.array([pos], dtype=numpy.uint32) for pos, key in enumerate(keys)}
+    with tempfile.TemporaryFile() as f:
+        io_.IndxIO.save(f, ent, common, numpy.dtype(numpy.uint32))
+        f.seek(0)
+        loaded, lcommon, _ = io_.IndxIO.load(f)
+        lkeys = set(loaded)
+        del loaded
+    ctx.count("consequence:indx_words_checked")
+    if lkeys != set(ent) or lcommon != common:
+        ctx.violation("insitu:indx-coordinate-wrapped",
+                      "INDX coordinate word too narrow: saved keys %r common %r, loaded keys %r common %r"
+                      % (sorted(ent)[:4], common, sorted(lkeys)[:4], lcommon),
+                      {"kind": "indx_words", "keys": [list(k) for k in ent], "common": common})
+
+
+def replay(ctx, case):
+    """Re-run one recorded case (a fit_dtype call, or one of the caller-side consequences)."""
+    import catii.iindexes as ii
+    import catii.indxio as io_
+    from ..gen import dense_to_index
+
+    kind = case.get("kind")
+    if "args" in case:
+        args = tuple(int(x) for x in case["args"])
+        judge_call(ctx, args, ii.fit_dtype(*args), "replay")
+    elif kind == "collapse_many_columns":
+        collapse_many_columns_case(ctx, int(case["ncols"]), [int(p) for p in case["precedence"]])
+    elif kind == "dense_output_dtype":
+        dense_output_dtype_case(ctx, case)
+    elif kind == "indx_words":
+        indx_words_case(ctx, io_, [tuple(k) for k in case["keys"]], int(case["common"]))
+    elif "a" in case:
+        # a workload array: every consequence is run on it again, with several draws of the random choices
+        a2 = numpy.asarray(case["a"]).astype(numpy.int64)
+        vals = sorted(set(int(v) for v in a2.ravel().tolist()))
+        signed = min(vals) < 0
+
+        def make(orig, patch):
+            def wrapper(*args, **kw):
+                if kw:
+                    args = args + tuple(kw[k] for k in ("maxval", "minval") if k in kw)
+                res = orig(*args)
+                judge_call(ctx, args, res, "insitu")
+                return res
+            return wrapper
+
+        patch = monitors.patch_everywhere(ii.fit_dtype, make)
+        ctx.inflight({"a": a2, "values": vals})
+        try:
+            for i in range(8):
+                idx = dense_to_index(a2, int(a2[0, 0]))
+                try:
+                    insitu_one(ctx, numpy.random.default_rng([19, i]), i * 2 if i < 4 else i * 2 + 1, len(vals), idx, a2, vals, signed, io_)
+                except OverflowError as e:
+                    ctx.violation("insitu:overflow", "the dtype chosen by the library cannot hold a value it must store: %s" % e,
+                                  {"a": a2, "values": vals})
+                except Exception:
+                    ctx.count("insitu_workload_raised(not judged here)")
+            ctx.inflight(None)
+        finally:
+            patch.undo()
+    else:
+        raise ValueError("unknown C19 replay case: %r" % sorted(case))
